@@ -26,37 +26,59 @@ def translate(rep: Report):
     states.generate(rep)
 
 
-def one(rep: Report, rng: Rng, spec: Spec, cfg0: dict):
-    cfg = fresh_cfg(cfg0)
-    win = cfg.get("max_num_updates") or cfg.get("max_num_samples") or 0
-    pre = random_ops(rng, spec, cfg, rng.randint(0, 8 if not win else 2 * win + 2))
-    cont = random_ops(rng, spec, cfg, rng.randint(3, 6) if not win else 2 * win + 3, allow_reset=False)
+RESET_HOW = ["reset", "reset_metrics"]
+
+
+def examine(spec: Spec, cfg: dict, pre, cont, reset_how: str):
+    """the property's oracle on one case: `pre` on a new instance, reset (`reset_how`: the method or toolkit.reset_metrics),
+    then compute / `cont` / compute on the reset object and on a fresh one, step by step, and state_dict() at the end.
+    None when the property holds, else (signature, what, replay dict).  Used by the sweep and by replay()."""
+    return _examine(spec, cfg, pre, cont, reset_how)[0]
+
+
+def _examine(spec: Spec, cfg: dict, pre, cont, reset_how: str):
+    """(verdict, number of successful updates before the reset)."""
     a = new_metric(spec, cfg)
     nupd = 0
     for op in pre:
         r = apply_op(a, op, spec, cfg)
         if op[0] == "u" and r[1] is None:
             nupd += 1
-    if rng.random() < 0.5:
+    if reset_how == "reset":
         a.reset()
     else:
         reset_metrics([a])
     f = new_metric(spec, cfg)
-    rep.count(f"class:{spec.name}")
-    rep.case(nontrivial_key=(spec.name, repr(public_cfg(cfg)), ckey(pre), ckey(cont)) if nupd else None,
-             sample={"class": spec.name, "cfg": public_cfg(cfg), "before_reset": len(pre), "continuation": len(cont)} if rep.evaluations % 401 == 0 else None)
+
+    def bad(sig, what, **extra):
+        return (sig, what, {"class": spec.name, "cfg": public_cfg(cfg), "reset_how": reset_how, "before_reset": describe_ops(pre),
+                            "continuation": describe_ops(cont), **extra}), nupd
     steps = [("o",)] + cont + [("o",)]
     for k, op in enumerate(steps):
         ra, rf = apply_op(a, op, spec, cfg), apply_op(f, op, spec, cfg)
         if not same_step(ra, rf, spec.tol):
-            rep.violation(f"C10|{spec.name}|reset-differs-from-fresh",
-                          f"{spec.name}{public_cfg(cfg)}: step {k} after reset gives {ra if ra[0] != 'o' else obs_json(ra[1])}, fresh instance gives {rf if rf[0] != 'o' else obs_json(rf[1])}",
-                          {"class": spec.name, "cfg": public_cfg(cfg), "before_reset": describe_ops(pre), "continuation": describe_ops(steps[:k + 1])})
-            return
+            return bad(f"C10|{spec.name}|reset-differs-from-fresh",
+                       f"{spec.name}{public_cfg(cfg)}: step {k} after reset gives {ra if ra[0] != 'o' else obs_json(ra[1])}, fresh instance gives {rf if rf[0] != 'o' else obs_json(rf[1])}",
+                       check="steps", failed_step=k, steps=describe_ops(steps[:k + 1]))
     if not snap_equal(snapshot(a), snapshot(f)):
-        rep.violation(f"C10|{spec.name}|state-after-reset-differs-from-fresh",
-                      f"{spec.name}{public_cfg(cfg)}: state_dict() after reset+continuation differs from a fresh instance's",
-                      {"class": spec.name, "cfg": public_cfg(cfg), "before_reset": describe_ops(pre), "continuation": describe_ops(steps)})
+        return bad(f"C10|{spec.name}|state-after-reset-differs-from-fresh",
+                   f"{spec.name}{public_cfg(cfg)}: state_dict() after reset+continuation differs from a fresh instance's",
+                   check="state_dict")
+    return None, nupd
+
+
+def one(rep: Report, rng: Rng, spec: Spec, cfg0: dict):
+    cfg = fresh_cfg(cfg0)
+    win = cfg.get("max_num_updates") or cfg.get("max_num_samples") or 0
+    pre = random_ops(rng, spec, cfg, rng.randint(0, 8 if not win else 2 * win + 2))
+    cont = random_ops(rng, spec, cfg, rng.randint(3, 6) if not win else 2 * win + 3, allow_reset=False)
+    reset_how = RESET_HOW[0] if rng.random() < 0.5 else RESET_HOW[1]
+    v, nupd = _examine(spec, cfg, pre, cont, reset_how)
+    rep.count(f"class:{spec.name}")
+    rep.case(nontrivial_key=(spec.name, repr(public_cfg(cfg)), ckey(pre), ckey(cont)) if nupd else None,
+             sample={"class": spec.name, "cfg": public_cfg(cfg), "before_reset": len(pre), "continuation": len(cont)} if rep.evaluations % 401 == 0 else None)
+    if v is not None:
+        rep.violation(*v)
 
 
 def sweep(rep, rng, reps, deadline):
@@ -74,3 +96,41 @@ def run(rep: Report):
 
 def search(rep: Report):
     sweep(rep, Rng(rep.seed * 11 + 1010), 25, time.time() + 120)
+
+
+# ------------------------------------------------------------------ replay
+
+def ops_from_describe(lst):
+    """inverse of hist.describe_ops (also after a JSON round trip)."""
+    from ..registry import Batch
+    out = []
+    for op in lst:
+        if op[0] == "u":
+            out.append(("u", Batch.from_describe(op[1])))
+        elif op[0] == "m":
+            out.append(("m", [[Batch.from_describe(b) for b in bl] for bl in op[1]]))
+        else:
+            out.append((op[0],))
+    return out
+
+
+def replay(payload) -> bool:
+    """True iff the property holds on the recorded case: the operations before the reset, the way of resetting and the
+    continuation are rebuilt and judged by `examine` (the sweep's oracle: the reset object against a fresh instance)."""
+    rp = payload.get("replay") or {}
+    if payload.get("kind", "failing-input") != "failing-input" or not {"class", "cfg", "before_reset", "continuation"} <= set(rp):
+        raise ValueError(f"nothing to replay: payload kind {payload.get('kind')!r} carries no case (class, cfg, before_reset, continuation)")
+    from ..registry import BY_NAME
+    spec = BY_NAME[rp["class"]]
+    pre, cont = ops_from_describe(rp["before_reset"]), ops_from_describe(rp["continuation"])
+    # payloads written before `reset_how` was recorded: the continuation held the compared steps (leading compute included)
+    hows = [rp["reset_how"]] if rp.get("reset_how") in RESET_HOW else RESET_HOW
+    if "reset_how" not in rp and cont and cont[0] == ("o",):
+        cont = cont[1:]
+    ok = True
+    for h in hows:
+        v = examine(spec, dict(rp["cfg"]), pre, cont, h)
+        if v is not None:
+            print(f"replay: ({h}) {v[0]}: {v[1]}"[:600])
+            ok = False
+    return ok
